@@ -284,6 +284,13 @@ inductive COp
   | ignore (names : List Name)
   | reset (names : List Name)
   | run (order : List Name) (always : Bool) (plan : Name → Plan)
+  /-- a run stopped (failure without `--continue`) after the *first* `select_task` pass of these tasks -- each has
+      setup-tasks and status `run`, so it was put aside -- and before their final report: `get_status` was called
+      (it drops a record written under another checker); an ignored task never gets that far -/
+  | firstPass (ts : List Name)
+
+/-- first `select_task` pass without a final report -/
+def firstPassOne (s : St) (t : Name) : St := if (s.rcd t).ign then s else peek s t
 
 def stepC (fixed : Bool) (g : Graph) (s : St) : COp → St
   | .edit p sz c => step true s (.edit p sz c)
@@ -294,6 +301,7 @@ def stepC (fixed : Bool) (g : Graph) (s : St) : COp → St
   | .ignore names => ignoreCmd g names s
   | .reset names => if fixed then resetCmd g names s else pinnedResetCmd g names s
   | .run order always plan => (runAll fixed always g plan s order).s
+  | .firstPass ts => ts.foldl firstPassOne s
 
 def initC (defs : Name → TaskDef) (c : Checker) : St :=
   ⟨defs, fun _ => Rcd.empty, fun _ => none, fun _ => none, c, 0, false⟩
